@@ -59,7 +59,12 @@ class FileSystemArtifactStore(SerializedArtifactStore):
         return path.open(mode, encoding='utf-8')  # noqa: ASYNC101
 
     def _get_glob(self, node_id: NodeId) -> t.List[Path]:
-        return list(Path(self._ensure_dir()).glob(f'{node_id}.*'))
+        # The artifact is keyed by the exact node id. A glob pattern like '<node_id>.*' also matches the artifacts
+        # of other ids ('x' matches 'x.y.pickle') and treats '*', '?', '[' inside an id as wildcards.
+        directory = Path(self._ensure_dir())
+        paths = (Path(directory / f'{node_id}.{fmt.value}') for fmt in DataFormat)
+
+        return [path for path in paths if path.is_file()]
 
     @dont_use_for_prod
     async def save(self, node_id: NodeId, data: NodeResultT, fmt: DataFormat = DataFormat.PICKLE) -> None:
